@@ -372,7 +372,7 @@ pub fn run(run: &Run) {
     let seed = run.opts.seed;
 
     // ---- family 1: random filters with calls
-    let n = run.opts.size(100_000, 7_000_000);
+    let n = run.opts.size(100_000, 2_500_000);
     run.parallel("random", n, |i, l| {
         let mut r = Rng::derive(seed, "c03-random", i);
         let eng = &envs[r.below(envs.len())];
@@ -444,7 +444,7 @@ pub fn run(run: &Run) {
     });
 
     // ---- family 2: value expressions built on calls
-    let n = run.opts.size(60_000, 3_000_000);
+    let n = run.opts.size(60_000, 1_200_000);
     run.parallel("values", n, |i, l| {
         let mut r = Rng::derive(seed, "c03-values", i);
         let eng = &envs[r.below(envs.len())];
@@ -462,7 +462,7 @@ pub fn run(run: &Run) {
     });
 
     // ---- family 3: definition context
-    let n = run.opts.size(30_000, 1_000_000);
+    let n = run.opts.size(30_000, 500_000);
     run.parallel("ctx", n, |i, l| {
         let mut r = Rng::derive(seed, "c03-ctx", i);
         let eng = &envs[r.below(envs.len())];
